@@ -4,6 +4,7 @@ unchanged.  Model: `Codec.enc`/`Codec.dec` (+ `Packet` mutators); spec:
 `Spec.wire`.
 -/
 import CoapLite.Lemmas.CodecFwd
+import CoapLite.Lemmas.Builder
 
 namespace CoapLite.C01
 open CoapLite Codec Spec
@@ -153,6 +154,42 @@ theorem addOption_get (p : Packet) (hs : p.options.Sorted) (n m : Nat) (v : Byte
     (p.addOption n v).getOption m =
       if m = n then some ((p.getOption n).getD [] ++ [v]) else p.getOption m :=
   Codec.addOption_get p hs n m v
+
+/-- ALL orders of API calls: for every sequence of builder calls (set_version,
+set_type, set_token_length, set_token, add_option, set_option, clear_option,
+clear_all_options, code / message id / payload writes – any calls, any order,
+any repetitions) the resulting packet is exactly what the reference semantics
+says: per header field the last value written, per option number the values of
+the calls for that number in order (newest-first reference functions in
+`Model/Builder.lean`), with a sorted option map -/
+theorem build_spec (ops : List Builder.BOp) (p : Packet) (h : Builder.build ops = .ok p) :
+    (∀ n, p.getOption n = Builder.refOpts ops.reverse n) ∧ p.options.Sorted ∧
+    p.header.getVersion = Builder.refVer ops.reverse ∧
+    p.header.getType = .ok (Builder.refTyp ops.reverse) ∧
+    p.header.getTkl.toNat = Builder.refTkl ops.reverse ∧
+    p.header.code = Builder.refCode ops.reverse ∧ p.header.mid = Builder.refMid ops.reverse ∧
+    p.token = Builder.refTok ops.reverse ∧ p.payload = Builder.refPay ops.reverse :=
+  Builder.build_spec ops p h
+
+/-- hence two call sequences with the same meaning build the SAME packet (and so,
+by `enc_eq_wire`, the same wire image) -/
+theorem build_order_irrelevant (ops₁ ops₂ : List Builder.BOp) (p₁ p₂ : Packet)
+    (h₁ : Builder.build ops₁ = .ok p₁) (h₂ : Builder.build ops₂ = .ok p₂)
+    (ho : ∀ n, Builder.refOpts ops₁.reverse n = Builder.refOpts ops₂.reverse n)
+    (hv : Builder.refVer ops₁.reverse = Builder.refVer ops₂.reverse)
+    (ht : Builder.refTyp ops₁.reverse = Builder.refTyp ops₂.reverse)
+    (hk : Builder.refTkl ops₁.reverse = Builder.refTkl ops₂.reverse)
+    (hc : Builder.refCode ops₁.reverse = Builder.refCode ops₂.reverse)
+    (hm : Builder.refMid ops₁.reverse = Builder.refMid ops₂.reverse)
+    (hto : Builder.refTok ops₁.reverse = Builder.refTok ops₂.reverse)
+    (hp : Builder.refPay ops₁.reverse = Builder.refPay ops₂.reverse) :
+    p₁ = p₂ :=
+  Builder.build_order_irrelevant ops₁ ops₂ p₁ p₂ h₁ h₂ ho hv ht hk hc hm hto hp
+
+/-- the builder API fails only through its documented token-length assertion -/
+theorem build_ok_iff (ops : List Builder.BOp) :
+    (∃ p, Builder.build ops = .ok p) ↔ Builder.NoAssert ops :=
+  Builder.build_ok_iff ops
 
 /-! ### non-vacuity: No-Response (258) as first option, 269-byte value, cleared and re-added -/
 
